@@ -106,7 +106,7 @@ def chan(T, nbar, st, m):
     return (T * N + (1 - T) * nbar, T * M, t * al)
 
 
-@proof("C03", OPS + ":Channel.merge", name="Channel.merge/LossChannel")
+@proof(["C03", "C09"], OPS + ":Channel.merge", name="Channel.merge/LossChannel")
 def _loss_merge(h):
     ops = h.module(OPS)
     m = h.eng.math
@@ -129,7 +129,7 @@ def _loss_merge(h):
     h.ensure("frame", A.p[0] is T1 and B.p[0] is T2)
 
 
-@proof("C03", OPS + ":Channel.merge", name="Channel.merge/ThermalLossChannel")
+@proof(["C03", "C09"], OPS + ":Channel.merge", name="Channel.merge/ThermalLossChannel")
 def _tloss_merge(h):
     ops = h.module(OPS)
     m = h.eng.math
@@ -152,7 +152,7 @@ def _tloss_merge(h):
     h.ensure("frame", A.p[0] is T1 and B.p[0] is T2 and A.p[1] is nb and B.p[1] is nb)
 
 
-@proof("C03", OPS + ":Channel.merge", name="Channel.merge/MSgate")
+@proof(["C03", "C09"], OPS + ":Channel.merge", name="Channel.merge/MSgate")
 def _ms_merge(h):
     """MSgate(r, phi, r_anc, eta, avg): documented as (measurement-based) squeezing by r; two of them compose to
     squeezing by r1 + r2 (same phase), never to squeezing by r1 * r2"""
